@@ -285,6 +285,13 @@ namespace GeographicLib {
         bmin = ltphi;
       }
       real dltphi = -(ltzeta1 - ltzeta) / diff;
+      if (isnan(dltphi)) {
+        // tan(zeta1) overflowed (bmax has been updated); bisect
+        sign = 0; ntrip = n;
+        ltphi = (bmin + bmax) / 2;
+        tphi = exp2(ltphi);
+        continue;
+      }
       ltphi += dltphi;
       tphi = exp2(ltphi);
       if (!(fabs(dltphi) >= tol_)) {
